@@ -21,7 +21,6 @@ package main
 //   Z <case> <same|diff>             cross-process comparison of the identifiers of a case
 
 import (
-	"time"
 	"bufio"
 	"bytes"
 	"context"
@@ -35,6 +34,7 @@ import (
 	"sort"
 	"strconv"
 	"strings"
+	"time"
 
 	ipfslog "berty.tech/go-ipfs-log"
 	"berty.tech/go-ipfs-log/enc"
@@ -66,7 +66,7 @@ import (
 type codecStats struct {
 	Cases, DistinctNontrivial                                         int
 	WellFormed, Created, Direct, Manifests, LinkKey, LinkEntries      int
-	StaleTemplates                                                   int
+	StaleTemplates, PinnedWrites                                      int
 	Malformed, MalInputs, MalRandom, MalTruncated, MalStructured      int
 	MalManifest, MalV0, MalDecodedOK, MalErr, Panics                  int
 	StructValidCbor, Poison, PoisonLoads, Vectors, CrossProcess       int
@@ -577,7 +577,7 @@ func (w *codecWorld) runWellFormed(h int, r *rand.Rand) {
 				in.Clock = entry.NewLamportClock(ident.PublicKey, genTime(r))
 			}
 			var err error
-			e, err = entry.CreateEntryWithIO(w.ctx, api, ident, in, nil, w.io0)
+			e, err = entry.CreateEntryWithIO(w.ctx, api, ident, in, ceOpts(r, w.st), w.io0)
 			if err != nil {
 				fmt.Fprintf(w.out, "W err - -\n")
 				continue
@@ -609,7 +609,7 @@ func (w *codecWorld) runWellFormed(h int, r *rand.Rand) {
 					p = true
 				}
 			}()
-			c, err = entry.ToMultihashWithIO(w.ctx, e, api, nil, w.io0)
+			c, err = entry.ToMultihashWithIO(w.ctx, e, api, ceOpts(r, w.st), w.io0)
 		}()
 		raw := w.writeLine("W", c, err, p, api)
 		if raw == nil {
@@ -625,7 +625,7 @@ func (w *codecWorld) runWellFormed(h int, r *rand.Rand) {
 		_, hasN := e.GetAdditionalData()[iface.KeyEncryptedLinksNonce]
 		fmt.Fprintf(w.out, "F %s\n", fieldDiff(e, got, c, e.GetV() > 1 && hasL && hasN))
 		// re-encode the decoded entry
-		c2, err2 := entry.ToMultihashWithIO(w.ctx, got, api, nil, w.io0)
+		c2, err2 := entry.ToMultihashWithIO(w.ctx, got, api, ceOpts(r, w.st), w.io0)
 		if err2 != nil {
 			fmt.Fprintf(w.out, "X err -\n")
 		} else {
@@ -2187,4 +2187,17 @@ func runCodec(seed int64, n int, out *bufio.Writer, thorough bool) *codecStats {
 	}
 	st.DistinctNontrivial = len(st.shapes)
 	return st
+}
+
+// ceOpts: the options of an entry write — none, empty, or "pin the block" (pinning must change neither the block
+// nor its identifier; PreSigned legitimately changes what is written and is never set here)
+func ceOpts(r *rand.Rand, st *codecStats) *iface.CreateEntryOptions {
+	switch r.Intn(4) {
+	case 0:
+		return &iface.CreateEntryOptions{}
+	case 1:
+		st.PinnedWrites++
+		return &iface.CreateEntryOptions{Pin: true}
+	}
+	return nil
 }
